@@ -1,90 +1,141 @@
 import GolibsVerif.Model.Kv
 import GolibsVerif.Model.Lin
 /-
-`RedisConc` — command-level concurrent model of kvs/redis/redis.go (property C02, Redis backend).
+`RedisConc` — command-level concurrent model of kvs/redis/redis.go (property C02, Redis backend),
+with expiries and a clock.
 
-Any number of clients (threads) run Create / Get / GetMany / Put / PutMany (MSET path) /
-CasByVersion / Delete against ONE Redis server.  A client operation is the sequence of Redis
-commands redis.go issues for it; commands of different clients interleave arbitrarily; every single
-command (and every MULTI…EXEC block) is atomic on the server.
+Any number of clients (threads) run Create / Get / GetMany / Put / PutMany (MSET path AND the loop
+of SETs) / CasByVersion / Delete against ONE Redis server.  A client operation is the sequence of
+Redis commands redis.go issues for it; commands of different clients interleave arbitrarily; every
+single command (and every MULTI…EXEC block) is atomic on the server.
 
-    Create        SETNX ; if the key exists: GET (found -> ErrExist ver | vanished -> SETNX again …)
+    Create        SETNX [PX ttl] ; if the key exists: GET (found -> ErrExist ver | vanished -> SETNX again …)
     Get           GET
     GetMany       MGET
-    Put           SET
-    PutMany       MSET                       (records without expiry; fresh version each)
+    Put           SET [PX ttl]
+    PutMany       MSET                       (non-empty list, NO record has an expiry; fresh version each)
+                  SET [PX ttl] ; SET [PX ttl] ; …   (some record has an expiry: one Put — one SET — per
+                                                     record, in order, ALL records)
     Delete        DEL
     CasByVersion  WATCH ; GET (absent -> ErrNotExist | other version -> ErrConflict) ;
-                  MULTI SET EXEC (key touched since WATCH -> start over | applied -> ok)
+                  MULTI SET [PX ttl] EXEC (key touched since WATCH -> start over | applied -> ok)
 
-Server = `Kv.Spec` at time 0 with no expiries (expiry is C06 / C03, sequential): its store is the key
-space, its `nextVer` the id source.  A version is drawn when it is written: redis.go draws the ULID a
-few statements earlier, but ids are only ever compared for equality and an id that is never stored
-is never seen by anybody, so the moment of drawing is unobservable (ULID uniqueness: trusted base).
+PutMany of the empty list issues no command at all and is not covered (`entry (.putMany []) = none`).
+
+Server = `Kv.Spec` read at the server time `St.now` (milliseconds): its store is the key space, its
+`nextVer` the id source; a record whose expiry lies before `now` IS absent (`Spec.live`).  A version is
+drawn when it is written: redis.go draws the ULID a few statements earlier, but ids are only ever
+compared for equality and an id that is never stored is never seen by anybody, so the moment of
+drawing is unobservable (ULID uniqueness: trusted base).
 WATCH bookkeeping: `watch t = some (k, dirty)`; every command that writes or removes key k marks all
 watchers of k dirty (Redis marks a watched key as touched on any modification, even to the same value).
 
+Expiries and the clock.  Operations carry the ABSOLUTE expiry `e : Option Nat` the caller asked for
+(as in `Kv.Op`); Redis stores a RELATIVE ttl: the record written by a command executed at server time
+T with `PX ttl` disappears at T+ttl.  The client computes the relative TTL
+(`expiration(expiresAt, time.Now())` = `expiresAt − time.Now()`) right before sending the write
+command (before EACH SETNX of Create, before the SET of Put and of every Put of the PutMany loop,
+before MULTI SET EXEC of CAS); the server applies it when the command arrives.  The model does not let
+the clock advance in between: `Ev.tick d` (`now := now + d`) is ENABLED only if no client is inside
+such a "TTL window" (`tickBlocked`: `create1` / `put` with an expiry, `putLoop`, `casExec`).  In
+reality the two instants differ by one command latency, by which the record's life is lengthened —
+outside the model.  `casExec` blocks the clock for any expiry, additionally because whether the
+expiry of a WATCHed key makes the EXEC fail is server-version specific — outside the model.  With no
+tick inside the window, `server time + ttl = requested absolute expiry`, so a write stores exactly the
+requested `e` (`Spec.write k v e`).
+
+The loop path of PutMany is NOT one atomic operation ("per-key effects" is what the property claims
+for PutMany): each of its SETs is reported as one complete Put operation of that client.  In the `Lin`
+event list: `call t (putMany rs)` on the loop path emits nothing, each loop command emits
+`inv t (put k v e), lin t, ret t (okVer ver)`, the final `ret t ok` emits nothing.
+
 `step` is a deterministic partial function of (state, event); `runL` also produces the list of
 `Lin` events of the run: invocation, the ONE command at which the operation takes effect
-(`Lin.Ev.lin`), response.
+(`Lin.Ev.lin`), response.  A tick is reported as a complete operation `tick d` of a dedicated clock
+thread whose id is the number of clients (clients are `0 … n-1`).
 -/
 namespace RedisConc
 open Kv
 
 inductive Pc where
   | idle
-  | create1 (k v : String)                          -- next command: SETNX
-  | create2 (k v : String)                          -- SETNX found the key: next command GET
+  | create1 (k v : String) (e : Option Nat)         -- next command: SETNX
+  | create2 (k v : String) (e : Option Nat)         -- SETNX found the key: next command GET
   | get (k : String)
   | getMany (ks : List String)
-  | put (k v : String)
-  | putMany (rs : List (String × String))
+  | put (k v : String) (e : Option Nat)
+  | putMany (rs : List (String × String))           -- MSET path (no expiries)
+  | putLoop (rs : List (String × String × Option Nat))  -- loop path: records still to be SET (non-empty)
+  | loopDone                                        -- loop path: every record SET; about to return ok
   | del (k : String)
-  | casWatch (k : String) (ver : Nat) (v : String)   -- next command: WATCH
-  | casGet (k : String) (ver : Nat) (v : String)     -- next command: GET (inside the Watch callback)
-  | casExec (k : String) (ver : Nat) (v : String)    -- next command: MULTI SET EXEC
-  | done (r : Out)                                   -- result fixed; the call is about to return
+  | casWatch (k : String) (ver : Nat) (v : String) (e : Option Nat)  -- next command: WATCH
+  | casGet (k : String) (ver : Nat) (v : String) (e : Option Nat)    -- next command: GET (inside the Watch callback)
+  | casExec (k : String) (ver : Nat) (v : String) (e : Option Nat)   -- next command: MULTI SET EXEC
+  | done (r : Out)                                  -- result fixed; the call is about to return
 deriving DecidableEq, Repr
 
 structure St where
   srv : Spec
+  now : Nat                                          -- server time, milliseconds
   pc : List Pc                                       -- one per client
   watch : List (Option (String × Bool))              -- per client: watched key and "touched since WATCH"
 deriving DecidableEq, Repr
 
-def St.init (n : Nat) : St := { srv := Spec.new, pc := List.replicate n .idle, watch := List.replicate n none }
+def St.init (n : Nat) : St :=
+  { srv := Spec.new, now := 0, pc := List.replicate n .idle, watch := List.replicate n none }
 
 inductive Ev where
   | call (t : Nat) (op : Op)
   | cmd (t : Nat)
   | ret (t : Nat) (r : Out)
+  | tick (d : Nat)
 deriving DecidableEq, Repr
 
-/-- operations this model covers (no expiries; List / Wait are not part of C02) -/
+/-- inputs of the sequential object: a KV operation, or the passing of time -/
+inductive LOp where
+  | op (o : Op)
+  | tick (d : Nat)
+deriving DecidableEq, Repr
+
+/-- operations this model covers (List / Wait are not part of C02; the empty PutMany issues no command) -/
 def entry : Op → Option Pc
-  | .create k v none => some (.create1 k v)
+  | .create k v e => some (.create1 k v e)
   | .get k => some (.get k)
   | .getMany ks => some (.getMany ks)
-  | .put k v none => some (.put k v)
-  | .putMany rs => if rs.all (fun r => r.2.2.isNone) then some (.putMany (rs.map fun r => (r.1, r.2.1))) else none
-  | .cas k ver v none => some (.casWatch k ver v)
+  | .put k v e => some (.put k v e)
+  | .putMany rs =>
+    if rs.isEmpty then none
+    else if rs.all (fun r => r.2.2.isNone) then some (.putMany (rs.map fun r => (r.1, r.2.1)))
+    else some (.putLoop rs)
+  | .cas k ver v e => some (.casWatch k ver v e)
   | .delete k => some (.del k)
   | _ => none
 
-/-- the operation a program counter belongs to -/
+/-- the operation a program counter belongs to (the loop path of PutMany is not ONE operation) -/
 def opOf : Pc → Option Op
   | .idle => none
-  | .create1 k v => some (.create k v none)
-  | .create2 k v => some (.create k v none)
+  | .create1 k v e => some (.create k v e)
+  | .create2 k v e => some (.create k v e)
   | .get k => some (.get k)
   | .getMany ks => some (.getMany ks)
-  | .put k v => some (.put k v none)
+  | .put k v e => some (.put k v e)
   | .putMany rs => some (.putMany (rs.map fun r => (r.1, r.2, none)))
+  | .putLoop _ => none
+  | .loopDone => none
   | .del k => some (.delete k)
-  | .casWatch k ver v => some (.cas k ver v none)
-  | .casGet k ver v => some (.cas k ver v none)
-  | .casExec k ver v => some (.cas k ver v none)
+  | .casWatch k ver v e => some (.cas k ver v e)
+  | .casGet k ver v e => some (.cas k ver v e)
+  | .casExec k ver v e => some (.cas k ver v e)
   | .done _ => none
+
+/-- the client is inside a "TTL window": it has computed a relative TTL (or is about to EXEC) and the
+command carrying it has not reached the server yet — the clock does not advance -/
+def tickBlocked : Pc → Bool
+  | .create1 _ _ (some _) => true
+  | .put _ _ (some _) => true
+  | .putLoop _ => true
+  | .casExec _ _ _ _ => true
+  | _ => false
 
 /-- every watcher of one of the keys is marked dirty -/
 def touch (w : List (Option (String × Bool))) (ks : List String) : List (Option (String × Bool)) :=
@@ -94,68 +145,92 @@ def touch (w : List (Option (String × Bool))) (ks : List String) : List (Option
 
 def St.setPc (s : St) (t : Nat) (p : Pc) : St := { s with pc := s.pc.set t p }
 
-/-- one Redis command of client t: (new state, is this command the operation's linearization point?) -/
-def cmdStep (s : St) (t : Nat) : Option (St × Bool) :=
+/-- where the PutMany loop goes after a SET -/
+def loopNext : List (String × String × Option Nat) → Pc
+  | [] => .loopDone
+  | r :: rest => .putLoop (r :: rest)
+
+/-- one Redis command of client t: (new state, the `Lin` events of this command: `[lin t]` if it is the
+operation's linearization point, `[]` if not, a complete Put for a SET of the PutMany loop) -/
+def cmdStep (s : St) (t : Nat) : Option (St × List (Lin.Ev LOp Out)) :=
   match s.pc[t]? with
-  | some (.create1 k v) =>
-    match s.srv.live 0 k with
-    | some _ => some (s.setPc t (.create2 k v), false)                    -- SETNX → 0
+  | some (.create1 k v e) =>
+    match s.srv.live s.now k with
+    | some _ => some (s.setPc t (.create2 k v e), [])                     -- SETNX → 0
     | none =>                                                             -- SETNX → 1
-      let (srv', ver) := s.srv.write k v none
-      some ({ s with srv := srv', watch := touch s.watch [k] }.setPc t (.done (.okVer ver)), true)
-  | some (.create2 k v) =>
-    match s.srv.live 0 k with
-    | some r => some (s.setPc t (.done (.errExist (some r.ver))), true)   -- GET → record
-    | none => some (s.setPc t (.create1 k v), false)                      -- GET → nil: the key is free again
-  | some (.get k) => some (s.setPc t (.done (s.srv.step 0 (.get k)).2), true)
-  | some (.getMany ks) => some (s.setPc t (.done (s.srv.step 0 (.getMany ks)).2), true)
-  | some (.put k v) =>
-    let (srv', ver) := s.srv.write k v none
-    some ({ s with srv := srv', watch := touch s.watch [k] }.setPc t (.done (.okVer ver)), true)
+      let (srv', ver) := s.srv.write k v e
+      some ({ s with srv := srv', watch := touch s.watch [k] }.setPc t (.done (.okVer ver)), [.lin t])
+  | some (.create2 k v e) =>
+    match s.srv.live s.now k with
+    | some r => some (s.setPc t (.done (.errExist (some r.ver))), [.lin t])  -- GET → record
+    | none => some (s.setPc t (.create1 k v e), [])                       -- GET → nil: the key is free again
+  | some (.get k) => some (s.setPc t (.done (s.srv.step s.now (.get k)).2), [.lin t])
+  | some (.getMany ks) => some (s.setPc t (.done (s.srv.step s.now (.getMany ks)).2), [.lin t])
+  | some (.put k v e) =>
+    let (srv', ver) := s.srv.write k v e
+    some ({ s with srv := srv', watch := touch s.watch [k] }.setPc t (.done (.okVer ver)), [.lin t])
   | some (.putMany rs) =>
-    let srv' := (s.srv.step 0 (.putMany (rs.map fun r => (r.1, r.2, none)))).1
-    some ({ s with srv := srv', watch := touch s.watch (rs.map (fun (r : String × String) => r.1)) }.setPc t (.done .ok), true)
+    let srv' := (s.srv.step s.now (.putMany (rs.map fun r => (r.1, r.2, none)))).1
+    some ({ s with srv := srv', watch := touch s.watch (rs.map (fun (r : String × String) => r.1)) }.setPc t (.done .ok), [.lin t])
+  | some (.putLoop ((k, v, e) :: rest)) =>                                -- one SET of the loop = one Put
+    let (srv', ver) := s.srv.write k v e
+    some ({ s with srv := srv', watch := touch s.watch [k] }.setPc t (loopNext rest),
+          [.inv t (.op (.put k v e)), .lin t, .ret t (.okVer ver)])
   | some (.del k) =>
-    match s.srv.live 0 k with
-    | none => some (s.setPc t (.done .errNotExist), true)                 -- DEL → 0
+    match s.srv.live s.now k with
+    | none => some (s.setPc t (.done .errNotExist), [.lin t])             -- DEL → 0
     | some _ =>                                                           -- DEL → 1
-      some ({ s with srv := { s.srv with store := s.srv.store.erase k }, watch := touch s.watch [k] }.setPc t (.done .ok), true)
-  | some (.casWatch k ver v) =>
-    some ({ s with watch := s.watch.set t (some (k, false)) }.setPc t (.casGet k ver v), false)
-  | some (.casGet k ver v) =>
-    match s.srv.live 0 k with
-    | none => some ({ s with watch := s.watch.set t none }.setPc t (.done .errNotExist), true)
+      some ({ s with srv := { s.srv with store := s.srv.store.erase k }, watch := touch s.watch [k] }.setPc t (.done .ok), [.lin t])
+  | some (.casWatch k ver v e) =>
+    some ({ s with watch := s.watch.set t (some (k, false)) }.setPc t (.casGet k ver v e), [])
+  | some (.casGet k ver v e) =>
+    match s.srv.live s.now k with
+    | none => some ({ s with watch := s.watch.set t none }.setPc t (.done .errNotExist), [.lin t])
     | some r =>
-      if r.ver ≠ ver then some ({ s with watch := s.watch.set t none }.setPc t (.done .errConflict), true)
-      else some (s.setPc t (.casExec k ver v), false)
-  | some (.casExec k ver v) =>
+      if r.ver ≠ ver then some ({ s with watch := s.watch.set t none }.setPc t (.done .errConflict), [.lin t])
+      else some (s.setPc t (.casExec k ver v e), [])
+  | some (.casExec k ver v e) =>
     match s.watch[t]? with
     | some (some (_, false)) =>                                           -- EXEC applied
-      let (srv', nv) := s.srv.write k v none
-      some ({ s with srv := srv', watch := (touch s.watch [k]).set t none }.setPc t (.done (.okVer nv)), true)
+      let (srv', nv) := s.srv.write k v e
+      some ({ s with srv := srv', watch := (touch s.watch [k]).set t none }.setPc t (.done (.okVer nv)), [.lin t])
     | _ =>                                                                -- EXEC → nil (TxFailedErr): start over
-      some ({ s with watch := s.watch.set t none }.setPc t (.casWatch k ver v), false)
+      some ({ s with watch := s.watch.set t none }.setPc t (.casWatch k ver v e), [])
   | _ => none
 
-def step (s : St) : Ev → Option (St × List (Lin.Ev Op Out))
+/-- the `Lin` events of a call: the invocation — except on the loop path of PutMany, whose SETs are
+reported as Puts one by one -/
+def callEvs (t : Nat) (op : Op) : Pc → List (Lin.Ev LOp Out)
+  | .putLoop _ => []
+  | _ => [.inv t (.op op)]
+
+def step (s : St) : Ev → Option (St × List (Lin.Ev LOp Out))
   | .call t op =>
     match s.pc[t]?, entry op with
-    | some .idle, some p => some (s.setPc t p, [.inv t op])
+    | some .idle, some p => some (s.setPc t p, callEvs t op p)
     | _, _ => none
-  | .cmd t => (cmdStep s t).map fun (s', l) => (s', if l then [.lin t] else [])
+  | .cmd t => cmdStep s t
   | .ret t r =>
     match s.pc[t]? with
     | some (.done r') => if r = r' then some (s.setPc t .idle, [.ret t r]) else none
+    | some .loopDone => if r = .ok then some (s.setPc t .idle, []) else none
     | _ => none
+  | .tick d =>
+    if s.pc.any tickBlocked then none
+    else some ({ s with now := s.now + d }, [.inv s.pc.length (.tick d), .lin s.pc.length, .ret s.pc.length .ok])
 
 /-- run a list of events; also yields the Lin events of the run -/
-def runL (s : St) : List Ev → Option (St × List (Lin.Ev Op Out))
+def runL (s : St) : List Ev → Option (St × List (Lin.Ev LOp Out))
   | [] => some (s, [])
   | e :: es => match step s e with
     | none => none
     | some (s', l) => (runL s' es).map fun (s'', ls) => (s'', l ++ ls)
 
-/-- the sequential object the concurrent runs are compared with: the KV contract at time 0 -/
-def obj : Lin.Obj Spec Op Out := { step := fun s op => s.step 0 op }
+/-- the sequential object the concurrent runs are compared with: the KV contract together with the
+time at which it is read -/
+def obj : Lin.Obj (Spec × Nat) LOp Out :=
+  { step := fun (s, now) i => match i with
+      | .op o => let (s', r) := s.step now o; ((s', now), r)
+      | .tick d => ((s, now + d), .ok) }
 
 end RedisConc
